@@ -48,11 +48,14 @@ def case(draw):
     ops = []
     for i in range(draw(st.integers(1, 6))):
         src = draw(st.sampled_from(roles))
-        place = draw(st.sampled_from(['global', 'other', 'same', 'global', 'other']))
-        dst = draw(st.sampled_from(roles)) if place == 'other' else src
+        place = draw(st.sampled_from(['global', 'other', 'term', 'same', 'cashflow', 'global', 'other', 'term']))
+        dst = draw(st.sampled_from(roles)) if place in ('other', 'term', 'cashflow') else src
         ops.append({'src': src, 'var_pick': draw(st.integers(0, 30)), 'place': place, 'dst': dst,
                     'when': draw(st.sampled_from(['pre', 'pre', 'post-codes'])),
-                    'form': draw(st.sampled_from(['2*%s', '%s + 1.0', '0.5*(%s)', '-%s', 'max(%s, 0.0)']))})
+                    'form': draw(st.sampled_from(['2*%s', '%s + 1.0', '0.5*(%s)', '-%s', 'max(%s, 0.0)'])),
+                    'var2_pick': draw(st.integers(0, 30)),
+                    'terms': draw(st.lists(st.sampled_from(['%(a)s', '-%(a)s', '%(a)s*%(b)s', '%(a)s/%(b)s', '2*%(a)s',
+                                                            '+%(b)s', '(-%(a)s)', '%(b)s*%(a)s']), min_size=1, max_size=3))})
     keyed = []
     for i in range(draw(st.integers(0, 3))):
         r = draw(st.sampled_from(roles))
@@ -70,6 +73,7 @@ def run(case_):
         c0 = Country(m0, 'T%d' % i)
         Sector(c0, 'A')
         Sector(c0, 'B').GetVariableName('F')
+    term_requests = []
     requests = []     # (emb variable full owner role, emb local name or global name, requested (role, local var))
     state = {'codes': False}
     n_countries_final = sum(len(z['countries']) for z in spec['zones']) + (1 if spec['external'] != 'none' else 0)
@@ -98,6 +102,21 @@ def run(case_):
                 if o['place'] == 'global':
                     mod.AddGlobalEquation('GLOB%d' % i, 'embedded name', text)
                     requests.append((None, 'GLOB%d' % i, tuple(o['src']), var, phase))
+                elif o['place'] in ('term', 'cashflow'):
+                    # equations built term by term (as the framework's own F, INC, market-demand equations are)
+                    var2 = vars_[o['var2_pick'] % len(vars_)]
+                    name2 = src.GetVariableName(var2)
+                    dst = S[tuple(o['dst'])]
+                    if o['place'] == 'term':
+                        dst.AddVariable('EMB%d' % i, 'embedded name, term form', '')
+                        for t in o['terms']:
+                            dst.AddTermToEquation('EMB%d' % i, t % {'a': name, 'b': name2})
+                        term_requests.append((tuple(o['dst']), 'EMB%d' % i, tuple(o['src']), var, var2, list(o['terms']), phase))
+                    else:
+                        if not dst.HasF:
+                            continue
+                        dst.AddCashFlow(o['terms'][0] % {'a': name, 'b': name2}, is_income=False)
+                        term_requests.append((tuple(o['dst']), None, tuple(o['src']), var, var2, [], phase))
                 else:
                     dst = S[tuple(o['dst'])]
                     dst.AddVariable('EMB%d' % i, 'embedded name', text)
@@ -208,7 +227,28 @@ def run(case_):
         if a != b:
             raise Violation('C05/meaning-changed', '%s: local form %r evaluates to %r, emitted %r to %r' %
                             (full, local_rhs, a, system.eqs[full], b))
-    nt = any(ph == 'pre' and (owner is None or owner != src_role) for owner, emb, src_role, var, ph in requests)
+    # term-built equations: value of the emitted equation == signed sum of the terms written with canonical names
+    for owner, emb, src_role, var, var2, terms, phase in term_requests:
+        if emb is None:
+            continue
+        src = built.sectors[src_role]
+        lhs = built.sectors[owner].FullCode + '__' + emb
+        if lhs not in system.eqs:
+            raise Violation('C05/embedded-equation-lost', 'equation %s is missing from the final text' % lhs)
+        a, b = src.FullCode + '__' + var, src.FullCode + '__' + var2
+        want_txt = ' + '.join('(' + t % {'a': a, 'b': b} + ')' for t in terms)
+        try:
+            want = expr.float_eval(want_txt, vals)
+            got = expr.float_eval(system.eqs[lhs], vals)
+        except Exception as ex:
+            raise Violation('C05/equation-unevaluable', '%s = %r: %s' % (lhs, system.eqs[lhs], ex))
+        if abs(want - got) > 1e-9 * max(1.0, abs(want)):
+            raise Violation('C05/embedded-name-wrong', 'terms %r with names requested (%s) for %s, %s give %s = %r (value %r, expected %r)' %
+                            (terms, phase, a, b, lhs, system.eqs[lhs], got, want))
+    nt = any(ph == 'pre' and (owner is None or owner != src_role) for owner, emb, src_role, var, ph in requests) or \
+        any(t[-1] == 'pre' and t[0] != t[2] for t in term_requests)
+    if term_requests:
+        labels.append('embedded-in-term-built-equation')
     if any(owner is None for owner, *_ in requests):
         labels.append('embedded-in-global')
     if any(ph == 'post-codes' for *_, ph in requests):
